@@ -98,6 +98,62 @@ M = [
      "        if rand_v <= 0:", "        if rand_v < 0:", ["C15"]),
     ("distselect_from_zero", "src/vsc/methods.py",
      "    rand_v = random.randint(1, total_w)", "    rand_v = random.randint(0, total_w)", ["C15"]),
+    ("order_ignored", "src/vsc/model/solvegroup_swizzler_partsel.py",
+     "        if rs.rand_order_l is not None:", "        if False:", ["C20"]),
+    ("order_reversed", "src/vsc/model/solvegroup_swizzler_partsel.py",
+     "            for ro_l in rs.rand_order_l:", "            for ro_l in reversed(rs.rand_order_l):", ["C20"]),
+    ("order_expand_dropped", "src/vsc/model/rand_info_builder.py",
+     "                    ExpandSolveOrderVisitor(self._order_m).expand(a, b)", "                    ExpandSolveOrderVisitor(self._order_m).expand(b, a)", ["C20"]),
+    ("order_swizzle_assume_only", "src/vsc/model/solvegroup_swizzler_partsel.py",
+     "                    btor.Assert(n)\n                else:", "                    pass\n                else:", ["C20", "C14"]),
+    ("cb_visited_guard_removed", "src/vsc/model/field_composite_model.py",
+     "        visited.append(self)\n        for f in self.field_l:\n            if f not in visited:\n                f.post_randomize(visited)",
+     "        visited.append(self)\n        for f in self.field_l:\n            f.post_randomize(visited)\n            if False:\n                f.post_randomize(visited)", ["C17"]),
+    ("cb_on_declared_rand", "src/vsc/model/field_composite_model.py",
+     "        if self.is_used_rand and self.rand_if is not None:\n            self.rand_if.do_pre_randomize()",
+     "        if (self.is_used_rand or self.parent is not None) and self.rand_if is not None:\n            self.rand_if.do_pre_randomize()", ["C17"]),
+    ("cb_post_twice_for_list", "src/vsc/model/field_array_model.py",
+     "    def post_randomize(self, visited):\n        FieldCompositeModel.post_randomize(self, visited)",
+     "    def post_randomize(self, visited):\n        FieldCompositeModel.post_randomize(self, visited)\n        if not self.is_scalar:\n            FieldCompositeModel.post_randomize(self, visited)", ["C17"]),
+    ("cb_pre_after_bounds", "src/vsc/model/randomizer.py",
+     "        # First, invoke pre_randomize on all elements\n        visited = []\n        for fm in field_model_l:\n            fm.pre_randomize(visited)\n",
+     "", ["C17"]),
+    ("cb_post_skipped_on_with", "src/vsc/model/randomizer.py",
+     "        visited = [] \n        for fm in field_model_l:\n            fm.post_randomize(visited)",
+     "        visited = [] \n        for fm in field_model_l:\n            if constraint_l is None or len(constraint_l) == 0 or not hasattr(constraint_l[0], 'name') or constraint_l[0].name != 'inline':\n                fm.post_randomize(visited)", ["C17"]),
+    ("c16_no_cleanup_in_finally", "src/vsc/model/randomizer.py",
+     "                ConstraintOverrideRollbackVisitor.rollback(f)\n                f.dispose()\n                f.set_used_rand(False, 0)",
+     "                pass", ["C16", "C03"]),
+    ("c16_if_then_exit_no_pop_on_exc", "src/vsc/constraints.py",
+     "    def __exit__(self, t, v, tb):\n        pop_constraint_scope()\n        \n        \nclass else_if(object):",
+     "    def __exit__(self, t, v, tb):\n        if t is None:\n            pop_constraint_scope()\n        \n        \nclass else_if(object):", ["C16"]),
+    ("c16_foreach_exit_no_pop_on_exc", "src/vsc/constraints.py",
+     "                return idx_term\n\n    def __exit__(self, t, v, tb):\n        pop_constraint_scope()",
+     "                return idx_term\n\n    def __exit__(self, t, v, tb):\n        if t is None:\n            pop_constraint_scope()", ["C16"]),
+    ("c16_with_exit_leaves_expr_mode", "src/vsc/rand_obj.py",
+     "                c = pop_constraint_scope()\n                leave_expr_mode()\n                pop_srcinfo_mode()",
+     "                c = pop_constraint_scope()\n                if t is None:\n                    leave_expr_mode()\n                pop_srcinfo_mode()", ["C16"]),
+    ("c16_ctor_cleanup_removed", "src/vsc/rand_obj.py",
+     "                                        while constraint_scope_depth() > scope_depth:\n                                            pop_constraint_scope()\n                                        clear_exprs()\n                                        raise e\n                                    fo.set_model(pop_constraint_scope())\n                                    model.add_constraint(fo.model)",
+     "                                        raise e\n                                    fo.set_model(pop_constraint_scope())\n                                    model.add_constraint(fo.model)", ["C16"]),
+    ("c16_solvefail_no_dispose", "src/vsc/model/randomizer.py",
+     "                active_randsets = []\n                for rs in ri.randsets():\n                    active_randsets.append(rs)\n                    for f in rs.all_fields():\n                        f.dispose()",
+     "                active_randsets = []\n                for rs in ri.randsets():\n                    active_randsets.append(rs)", ["C16"]),
+    ("c09_fields_iterated_as_set", "src/vsc/model/rand_set.py",
+     "        return self.field_rand_l", "        return list(set(self.field_rand_l))", ["C09"]),
+    ("c09_dist_uses_global_random", "src/vsc/model/constraint_dist_scope_model.py",
+     "        seed_v = randstate.rng.randint(1, self.total_weight)", "        import random\n        seed_v = random.randint(1, self.total_weight)", ["C09"]),
+    ("c09_get_randstate_live", "src/vsc/rand_obj.py",
+     "                return ro_int.get_randstate().clone()", "                return ro_int.get_randstate()", ["C09"]),
+    ("c09_set_randstate_no_clone", "src/vsc/impl/randobj_int.py",
+     "        self.randstate = rs.clone()", "        self.randstate = rs", ["C09"]),
+    ("c09_debug_consumes_draw", "src/vsc/model/randomizer.py",
+     "        if self.debug > 0:\n            rs_i = 0", "        if self.debug > 0:\n            self.randstate.randint(0, 3)\n            rs_i = 0", ["C09"]),
+    ("c09_srcinfo_changes_order", "src/vsc/model/rand_info_builder.py",
+     "        randset_l = list(filter(lambda e: e is not None, builder._randset_l))",
+     "        randset_l = list(filter(lambda e: e is not None, builder._randset_l))\n        if any(getattr(c, 'srcinfo', None) is not None for rs in randset_l for c in rs.constraints()):\n            randset_l.reverse()", ["C09"]),
+    ("c09_solvefail_debug_extra_draw", "src/vsc/model/randomizer.py",
+     "        self.solve_fail_debug = solve_fail_debug\n", "        self.solve_fail_debug = solve_fail_debug\n        if solve_fail_debug:\n            randstate.randint(0, 1)\n", ["C09"]),
     ("unsat_returns", "src/vsc/model/randomizer.py",
      "            if btor.Sat() != btor.SAT:\n                # If the system doesn't solve with hard constraints added,",
      "            if btor.Sat() != btor.SAT and len(constraint_l) > 3:\n                # If the system doesn't solve with hard constraints added,",
